@@ -26,6 +26,11 @@ func c20Tree(base core.Store) core.Store {
 	st["日本"] = []byte("top-level unicode name\n")
 	st[".ergo2/a"] = []byte("looks like .ergo but is not\n")
 	st["..x"] = []byte("starts with two dots but is a plain name\n")
+	// names with characters that mean something in a URL: the derived file_url must still denote exactly this file
+	st["100%.txt"] = []byte("percent at the end of the stem\n")
+	st["My%20Report.pdf"] = []byte("a literal percent-escape in the name\n")
+	st["docs/a b#c?d"] = []byte("space, hash and question mark\n")
+	st["L:link-mem"] = []byte("/proc/self/mem") // stat says regular file, every read fails with EIO
 	st["D:emptydir"] = nil
 	st["L:link-file"] = []byte("a")
 	st["L:link-dir"] = []byte("docs")
@@ -37,7 +42,7 @@ func c20Tree(base core.Store) core.Store {
 }
 
 func c20Paths(thorough bool) []string {
-	comps := []string{"a", "docs", "..", ".", ".ergo", ".ergo2", "..x", "", "日本", "link-file", "link-dir", "link-out", "dangling", "link-null", "missing", "plans.jsonl", "emptydir", "link-ergo"}
+	comps := []string{"a", "docs", "..", ".", ".ergo", ".ergo2", "..x", "", "日本", "link-file", "link-dir", "link-out", "dangling", "link-null", "missing", "plans.jsonl", "emptydir", "link-ergo", "100%.txt", "My%20Report.pdf", "a b#c?d", "link-mem"}
 	small := []string{"a", "docs", "..", ".", ".ergo", "link-dir", "plans.jsonl"}
 	seen := map[string]bool{}
 	var out []string
@@ -171,7 +176,13 @@ func runC20(env *core.Env) {
 			return
 		}
 		r := sh.Results[0]
-		content, _ := os.ReadFile(filepath.Join(w.Proj, clean))
+		content, rerr := os.ReadFile(filepath.Join(w.Proj, clean))
+		if rerr != nil {
+			// the file cannot be read (here: a link to /proc/self/mem), so no hash of its content exists; an attach that
+			// nevertheless succeeds has recorded something else
+			bad("unreadable-file-accepted", fmt.Sprintf("accepted although reading %q fails (%v); recorded sha %s", clean, rerr, r.Sha256), Assert{Kind: "exit_zero", Step: 1})
+			return
+		}
 		if real, err := filepath.EvalSymlinks(filepath.Join(w.Proj, clean)); err == nil && strings.HasPrefix(real, filepath.Join(w.Proj, ".ergo")+"/") {
 			content = tree[strings.TrimPrefix(real, w.Proj+"/")] // a symlink onto the log itself: the command changed it; hash what it held at attach time
 		}
@@ -303,7 +314,7 @@ func runC20(env *core.Env) {
 		"exhaustive": env.TimeLeft() && (b.CapHit == "" || b.CapHit == "max_depth"), "attach_requests": evals, "accepted": accepted, "path_strings": len(paths),
 		"history_states": histStates, "history_depth": b.DepthDone, "outcome_classes": classes.snapshot(), "distinct_outcome_classes": classes.len(),
 		"unconfirmed_candidates": unconfirmed.Load(),
-		"bound":                  "every path of <=3 components (thorough: + 4 components over a reduced alphabet) over {a, docs, .., ., .ergo, .ergo2, ..x, empty, unicode, symlink to file/dir/outside/dangling//dev/null/.ergo log, missing, plans.jsonl, empty dir}, each with/without leading and trailing slash, against a fixed project tree; x targets {task in 3 states, epic, pruned, unknown} and 9 summaries and 3 input modes on 8 paths; then every history of depth <=4 (5) of later commands (further results, state/title/epic/claim changes, results on another task, claim, prune, compact)",
+		"bound":                  "every path of <=3 components (thorough: + 4 components over a reduced alphabet) over {a, docs, .., ., .ergo, .ergo2, ..x, empty, unicode, symlink to file/dir/outside/dangling//dev/null/.ergo log//proc/self/mem (regular by stat, unreadable), missing, plans.jsonl, empty dir, names containing % / %20 / space # ?}, each with/without leading and trailing slash, against a fixed project tree; x targets {task in 3 states, epic, pruned, unknown} and 9 summaries and 3 input modes on 8 paths; then every history of depth <=4 (5) of later commands (further results, state/title/epic/claim changes, results on another task, claim, prune, compact)",
 	}, []string{"lexical confinement is judged on filepath.Clean of the input; 'existing regular file' follows symlinks (os.Stat)", "over-rejection is not a violation; accepted cases are counted so vacuity is visible", "FIFOs are not in the tree: reading one blocks the command (it would be the same non-regular-file class as the /dev/null symlink)"})
 }
 
